@@ -230,12 +230,20 @@ def obligations(tier, seed):
         if c04.scope_issues(group):
             continue
         # swap operands of a top-level union / of a join of two groups
+        # (the swapped spelling must not fall into a recorded scope class either: swapping moves a
+        #  group into / out of the position where rdflib pushes bindings into it)
         if len(group) == 1 and group[0][0] == "union":
-            add_rw(name, "swap-union", group, [["union", group[0][2], group[0][1]]], nc, vs, vs, ds)
+            sw = [["union", group[0][2], group[0][1]]]
+            if not c04.scope_issues(sw):
+                add_rw(name, "swap-union", group, sw, nc, vs, vs, ds)
         if len(group) == 2 and group[0][0] == "group" and group[1][0] == "group":
-            add_rw(name, "swap-join", group, [group[1], group[0]], nc, vs, vs, ds)
+            sw = [group[1], group[0]]
+            if not c04.scope_issues(sw):
+                add_rw(name, "swap-join", group, sw, nc, vs, vs, ds)
         if len(group) == 2 and group[0][0] == "tp" and group[1][0] in ("union", "group", "sub", "values"):
-            add_rw(name, "swap-join", group, [group[1], group[0]], nc, vs, vs, ds)
+            sw = [group[1], group[0]]
+            if not c04.scope_issues(sw):
+                add_rw(name, "swap-join", group, sw, nc, vs, vs, ds)
     # modifiers (C08) under renaming+prefix
     M = c08.modsets()
     for mname in (sorted(M) if tier == "thorough" else ["order-o-s", "distinct-o", "group-count", "group-min", "group-order-alias"]):
